@@ -1,6 +1,6 @@
 #!/usr/bin/env python3
 """Rule self-validation (thorough tier): applies each corpus variant and each seeded patch of the property to a scratch copy of
-/repo under mktemp (removed at once), checks the copy still compiles, runs the STATIC checker on it and requires a VIOLATION.
+/repo under mktemp (removed at once), checks the copy still compiles, runs the STATIC checker on it and requires a VIOLATION; it also applies each behaviour-preserving refactoring under /verif/refactorings and requires silence.
 Nothing of genql is executed. Exit 0: all applicable variants detected; exit 3: SELFTEST-FAIL (the checker, not /repo, is broken)."""
 import os, sys, subprocess, tempfile, shutil, json, glob
 from concurrent.futures import ThreadPoolExecutor
@@ -61,6 +61,25 @@ for sd in sorted(glob.glob('/verif/seeded/*')):
             jobs.append((run_seed, sd))
     except Exception:
         pass
+def run_refactoring(rd):
+    """A behaviour-preserving refactoring: the check of this property must stay silent on it."""
+    name = os.path.basename(rd)
+    d = scratch()
+    try:
+        a = subprocess.run(['patch', '-p1', '-s', '-i', os.path.join(rd, 'patch.diff')], cwd=d, capture_output=True, text=True)
+        if a.returncode != 0:
+            return 'refactoring:' + name, 'SKIPPED', 'patch no longer applies'
+        st, info = check(d, '')
+        if st == 'MISSED':
+            return 'refactoring:' + name, 'SILENT', ''
+        if st == 'NOCOMPILE':
+            return 'refactoring:' + name, 'SKIPPED', 'does not compile any more'
+        return 'refactoring:' + name, 'FALSE-ALARM', info
+    finally:
+        shutil.rmtree(d, ignore_errors=True)
+
+for rd in sorted(glob.glob('/verif/refactorings/*')):
+    jobs.append((run_refactoring, rd))
 res = []
 with ThreadPoolExecutor(max_workers=6) as ex:
     for r in ex.map(lambda j: j[0](j[1]), jobs):
@@ -70,10 +89,10 @@ cnt = {}
 for name, st, info in res:
     cnt[st] = cnt.get(st, 0) + 1
     print(f"selftest {pid} {name}: {st} {info}")
-    if st in ('MISSED', 'NOCOMPILE'):
+    if st in ('MISSED', 'NOCOMPILE', 'FALSE-ALARM'):
         bad += 1
 print(f"selftest {pid}: " + ' '.join(f"{k}={v}" for k, v in sorted(cnt.items())))
 json.dump({'property': pid, 'variants': [{'name': n, 'status': s, 'info': i} for n, s, i in res], 'counts': cnt}, open(f'/verif/evidence/selftest_{pid}.json', 'w'), indent=1)
 if bad:
-    print(f"SELFTEST-FAIL property={pid} undetected_or_noncompiling={bad}")
+    print(f"SELFTEST-FAIL property={pid} undetected_noncompiling_or_false_alarm={bad}")
     sys.exit(3)
